@@ -99,7 +99,7 @@ def run_real(model, init, limit, api, watched=True, reuse=None):
     try:
         r = ('ok', refval.canon(bare_script.execute_script(model, o)))
     except rt_err as exc:
-        r = ('err', str(exc))
+        r = ('err', refval.norm_error(str(exc)))
     except ModelMutated as exc:
         r = ('mutated', str(exc))
     return r, logs, user(g, lib), o.get('statementCount')
@@ -113,7 +113,7 @@ def run_ref(model, init, limit, lib, **kw):
     except (Domain, Unspecified):
         return None  # the reference leaves the result open (arithmetic domain error, single-statement resource exhaustion)
     except RefRuntimeError as exc:
-        r = ('err', str(exc))
+        r = ('err', refval.norm_error(str(exc)))
     return r, vm.logs, user(g, lib), vm.clock
 
 
